@@ -745,6 +745,10 @@ func ConvertAltitudekeyToMinMaxZ(altitudekey int64, altitudekeyZoomLevel int64, 
 	}
 	// 3. Calculate outputMinIndex
 	outputZoomDifference := outputZoom - consts.ZOriginValue
+	// an altitude that does not fit in int64 after scaling cannot exist in the output system
+	if arithmeticShiftOverflows(internalMinIndex-zBaseOffset, outputZoomDifference) || arithmeticShiftOverflows(internalMaxIndex-zBaseOffset+1, outputZoomDifference) {
+		return 0, 0, errors.NewSpatialIdError(errors.InputValueErrorCode, "output index does not exist with given outputZoom, zBaseExponent, and zBaseOffset")
+	}
 	outputMinIndex := common.CalculateArithmeticShift(internalMinIndex-zBaseOffset, outputZoomDifference)
 	outputMaxIndex := common.CalculateArithmeticShift(internalMaxIndex-zBaseOffset, outputZoomDifference)
 	if outputZoomDifference > 0 {
